@@ -44,7 +44,8 @@
             spec verdict becomes the model's, or `none`)
     eval <flags> <sv:0|1|3> <version> <locktime> <sequence> <idx> <nouts> <script> <annexHash:opt> <tapleaf>
          <weightLeft> <n> <item1(bottom)> … <itemn(top)>
-        -> need <query> | res model=<fail|ok:k:i1,…,ik> spec=<ScriptError|ok:k:i1,…,ik>    (items bottom→top)
+        -> need <query> | res model=<fail|ok:k:i1,…,ik> spec=<ScriptError|ok:k:i1,…,ik> class=<same|cltv-csv-discouraged-nop|none>
+           (items bottom→top; class as for `verify`, at the level success + final stack)
     num <bytes>         -> <bts2int|panic> <isMinimal> <bts2bool> <spec decode> <spec minimal> <spec castToBool>
     pushint <int>       -> <model bytes> <spec bytes>
     getop <bytes>       -> err | <opcode> <push:opt> <n>    and the spec parse:  … | serr | <op> <data> <afterlen>
@@ -177,11 +178,22 @@ def doEval (t : Table) (F : FullTx) (flags : Nat) (sv : SigVersion) (tx : TxCtx)
   | .need q => "need " ++ queryStr q
   | m =>
     let ms := match m with | .ok s => itemsStr s | _ => "fail"
-    let env : ScriptSpec.Env := ⟨withRefSigHash O F tx.witness, tx, ScriptSpec.Flags.ofMask flags, sv, {}, leaf, annex⟩
-    match ScriptSpec.evalScript env script stack weight with
+    let env (q : ScriptSpec.Quirks) : ScriptSpec.Env :=
+      ⟨withRefSigHash O F tx.witness, tx, ScriptSpec.Flags.ofMask flags, sv, q, leaf, annex⟩
+    -- the spec's result at the level the harness compares: success + final stack, every error is `fail`
+    let norm (r : Except ScriptSpec.ScriptError (List Bytes)) : String :=
+      match r with | .ok s => itemsStr s | .error _ => "fail"
+    match ScriptSpec.evalScript (env {}) script stack weight with
     | .error (.NEED q) => "need " ++ queryStr q
-    | .error e => s!"res model={ms} spec={errName e}"
-    | .ok s => s!"res model={ms} spec={itemsStr s}"
+    | r =>
+      let ss := match r with | .ok s => itemsStr s | .error e => errName e
+      if norm r == ms then s!"res model={ms} spec={ss} class=same" else
+      -- classification, as in `verify`: does the single documented quirk turn the spec's result into the model's?
+      match ScriptSpec.evalScript (env { discourageCltvCsv := true }) script stack weight with
+      | .error (.NEED q) => "need " ++ queryStr q
+      | r2 =>
+        if norm r2 == ms then s!"res model={ms} spec={ss} class=cltv-csv-discouraged-nop"
+        else s!"res model={ms} spec={ss} class=none"
 
 def txOf (ver lt sq idx nouts : String) (sigScr : Bytes) (wit : List Bytes) : Option TxCtx := do
   pure { version := ← ver.toNat?, lockTime := ← lt.toNat?, sequence := ← sq.toNat?, idx := ← idx.toNat?,
